@@ -120,6 +120,50 @@ Section Statements.
     first_producer n ops = None ->
     step' (fst (run' [] ops)) (Call n a skip) = (fst (run' [] ops), OCalled [] (Rejected EDynamicValue)).
   Proof. exact (history_call_unsourced arg atom src modr modl post). Qed.
+  (* ---- a pipeline used as the source of another pipeline ---- *)
+  Variable nested : Z -> option Z.          (* the pipeline a source id denotes, if it denotes one *)
+  Local Notation ncall' := (ncall arg atom src modr modl post nested).
+
+  (* with ordinary sources the nested evaluator is Pipeline._call itself *)
+  Theorem C14_nested_flat : forall f r n a skip,
+    match p_source (get_pipe r n) with Some s => nested s = None | None => True end ->
+    ncall' (S f) r n a skip = call' (get_pipe r n) a skip.
+  Proof. exact (ncall_flat arg atom src modr modl post nested). Qed.
+
+  (* the inner pipeline's complete evaluation - source, modifiers, its own post-processor (never skipped) - is embedded
+     ONCE where the source call would be; then the outer modifiers in order, then the outer post-processor *)
+  Theorem C14_nested_replace : forall f r n a skip s m tri vi,
+    p_source (get_pipe r n) = Some s -> nested s = Some m -> p_comb (get_pipe r n) = CReplace ->
+    ncall' f r m a false = (tri, Ok vi) ->
+    let p := get_pipe r n in
+    let v := fold_left (fun x q => modr q a x) (p_muts p) vi in
+    ncall' (S f) r n a skip =
+      (tri ++ replace_trace arg atom modr a (p_muts p) vi ++ (if post_applies p skip then [EPost (p_post p) v] else []),
+       if post_applies p skip then post (p_post p) v else Ok v).
+  Proof. exact (ncall_nested_replace arg atom src modr modl post nested). Qed.
+
+  Theorem C14_nested_list : forall f r n a skip s m tri li,
+    p_source (get_pipe r n) = Some s -> nested s = Some m -> p_comb (get_pipe r n) = CList ->
+    ncall' f r m a false = (tri, Ok (Many li)) ->
+    let p := get_pipe r n in
+    let v := Many (li ++ map (fun q => modl q a) (p_muts p)) in
+    ncall' (S f) r n a skip =
+      (tri ++ map (fun q => EMod q a None) (p_muts p) ++ (if post_applies p skip then [EPost (p_post p) v] else []),
+       if post_applies p skip then post (p_post p) v else Ok v).
+  Proof. exact (ncall_nested_list arg atom src modr modl post nested). Qed.
+
+  (* an inner failure (an unsourced pipeline down the chain, a raising callable) is the outer call's failure; nothing
+     of the outer pipeline is evaluated *)
+  Theorem C14_nested_failure : forall f r n a skip s m tri e,
+    p_source (get_pipe r n) = Some s -> nested s = Some m -> ncall' f r m a false = (tri, Rejected e) ->
+    ncall' (S f) r n a skip = (tri, Rejected e).
+  Proof. exact (ncall_nested_failure arg atom src modr modl post nested). Qed.
+
+  (* exactly once along a chain of any depth: one source evaluation, the chain's modifiers innermost first, every inner
+     post-processor and the outermost one unless skipped *)
+  Theorem C14_nested_exactly_once : forall f r n a skip tr v, ncall' f r n a skip = (tr, Ok v) ->
+    length (src_ids tr) = 1%nat /\ mod_ids tr = chain_mods nested f r n /\ post_ids tr = chain_posts nested f r n skip.
+  Proof. exact (ncall_exactly_once arg atom src modr modl post nested). Qed.
 End Statements.
 
 (* Historical (model of the code BEFORE fix e7ddbc13): a falsy source callable was overwritten by a second registration
@@ -239,6 +283,25 @@ Example ex_call_union :
   end = true.
 Proof. vm_compute. reflexivity. Qed.
 
+(* modifiers registered for a value that nobody ever sources: the call is rejected and NO modifier is evaluated *)
+Example ex_unsourced_with_modifiers :
+  ex_step (fst (ex_run [] [RegisterModifier 3 20; GetValue 3; RegisterModifier 3 21])) (Call 3 (Some [0; 2], [], []) false) =
+    (fst (ex_run [] [RegisterModifier 3 20; GetValue 3; RegisterModifier 3 21]), OCalled [] (Rejected EDynamicValue)) /\
+  p_muts (get_pipe (fst (ex_run [] [RegisterModifier 3 20; GetValue 3; RegisterModifier 3 21])) 3) = [20; 21].
+Proof. vm_compute. split; reflexivity. Qed.
+
+(* pipeline 4's source is pipeline 1 itself (source id 101): pipeline 1's trace (source 10, modifiers 20 21 22, its rate
+   post-processor) is embedded once, then pipeline 4's own modifier 21 *)
+Example ex_nested :
+  let r := fst (ex_run [] (ex_ops ++ [RegisterProducer 4 101 CReplace PNone; RegisterModifier 4 21])) in
+  match cncall ex_env r 4 (Some [0; 2], [], []) false [day_ns; 3 * day_ns] (2 * day_ns) with
+  | (tr, Ok (One (Vec [x0; x2]))) =>
+      zlist_eqb (src_ids tr) [10] && zlist_eqb (mod_ids tr) [20; 21; 22; 21] && (length (post_ids tr) =? 1)%nat &&
+      qeqb x0 (qadd (qmul (1, 2) (23, 2 * 365)) (3, 1))
+  | _ => false
+  end = true.
+Proof. vm_compute. reflexivity. Qed.
+
 (* a source callable whose truth value is False (first flag of source 12) is a source like any other *)
 Definition ex_env_falsy : env :=
   {| e_srcs := [(12, (false, false, [NSc (1, 2)])); (13, (true, false, [NSc (1, 4)]))]; e_mods := []; e_posts := [] |}.
@@ -262,6 +325,11 @@ Print Assumptions C14_source_first.
 Print Assumptions C14_history_call_replace.
 Print Assumptions C14_history_call_list.
 Print Assumptions C14_history_call_unsourced.
+Print Assumptions C14_nested_flat.
+Print Assumptions C14_nested_replace.
+Print Assumptions C14_nested_list.
+Print Assumptions C14_nested_failure.
+Print Assumptions C14_nested_exactly_once.
 Print Assumptions C14_old_truthiness_second_source.
 Print Assumptions C14_old_truthiness_call.
 Print Assumptions C14_rescale.
